@@ -46,9 +46,10 @@ func runC01(c *Ctx) {
 	conn := env.FaultSet{LostClose: true, WriteErr: true, AckLost: true, ConnRefuse: true, DialErr: true}
 	all := []string{"p0", "p1", "p2", "sub", "unsub"}
 	fams := []fam{
-		{name: "N2.F1", n: 2, bound: vrt.Budget{F: 1}, faults: conn, keep: []bool{true, false}, phases: []byte{'B', 'S', 'N', 'O', 'H'}, kinds: all},
-		{name: "N2.F2", n: 2, bound: vrt.Budget{F: 2}, faults: conn, keep: []bool{true}, phases: []byte{'B', 'O', 'H'}, kinds: []string{"p1", "p2"}},
-		{name: "N2.F1.P1.S1", n: 2, bound: vrt.Budget{F: 1, P: 1, S: 1, Total: 2}, faults: base, keep: []bool{true}, phases: []byte{'B', 'N'}, kinds: []string{"p1", "p2", "sub"}},
+		{name: "N2.F1", n: 2, bound: vrt.Budget{F: 1}, faults: conn, keep: []bool{true}, phases: []byte{'B', 'S', 'N', 'O', 'H'}, kinds: []string{"p1", "p2", "sub", "unsub"}},
+		{name: "N2.F1.nosession", n: 2, bound: vrt.Budget{F: 1}, faults: conn, keep: []bool{false}, phases: []byte{'B', 'N', 'H'}, kinds: []string{"p0", "p1", "sub"}},
+		{name: "N2.F2", n: 2, bound: vrt.Budget{F: 2}, faults: env.FaultSet{LostClose: true, AckLost: true, ConnRefuse: true}, keep: []bool{true}, phases: []byte{'B', 'H'}, kinds: []string{"p1", "p2"}},
+		{name: "N2.F1.P1.S1", n: 2, bound: vrt.Budget{F: 1, P: 1, S: 1, Total: 2}, faults: env.FaultSet{LostClose: true, AckLost: true}, keep: []bool{true}, phases: []byte{'B', 'N'}, kinds: []string{"p1", "p2"}},
 		{name: "N1.F2.noconnack", n: 1, bound: vrt.Budget{F: 2}, faults: env.FaultSet{NoConnAck: true, LostClose: true, OnlyTypes: map[byte]bool{env.CONNECT: true, env.PUBLISH: true, env.SUBSCRIBE: true}}, keep: []bool{true}, phases: []byte{'B', 'S'}, tmo: 3 * time.Second, kinds: all},
 	}
 	if c.Thorough() {
